@@ -143,6 +143,7 @@ func ambSetLane(lane string) {
 	amb.pYield = 1.0 / 32
 	xsimrt.GoHook = ambGo
 	xsimrt.ForceSwitch = ambForceSwitch
+	xsimrt.LockHook = lockHook
 	xsimrt.Choice = func(n int) int {
 		if s := curSim; s != nil {
 			return s.rng.Intn(n)
@@ -167,6 +168,7 @@ var ambDaemon bool
 // waits on, and the PRNG restarts from the scenario's seed.
 func ambReset(seed uint64) {
 	indexReg = indexReg[:0]
+	releaseHeld(&mainHeld)
 	if amb.on {
 		ambRetire()
 	}
@@ -239,7 +241,7 @@ func ambHook(site int) {
 	}
 	if amb.cur != nil {
 		amb.cur.blocked = false
-		if amb.cur.victim {
+		if amb.cur.victim && len(amb.cur.held) == 0 {
 			panic(abortUnit{"killed"})
 		}
 		if amb.quiescing {
@@ -277,6 +279,7 @@ func startDyn(t *Task, body func()) {
 		}()
 		t.done = true
 		t.inUnit = false
+		releaseHeld(&t.held)
 		if s := curSim; s != nil && len(s.segs) > 0 {
 			s.segs[len(s.segs)-1].N++
 		}
@@ -536,4 +539,59 @@ func noteSpawn() {
 	if spawnedTotal++; spawnedTotal%20000 == 0 {
 		runtime.GC()
 	}
+}
+
+// Locks of the code under test held by the running task (xsimrt.LockHook).
+type heldLock struct {
+	key    interface{}
+	try    func() bool
+	unlock func()
+	read   bool
+}
+
+var mainHeld []heldLock // ... by the harness goroutine
+
+func curHeld() *[]heldLock {
+	if s := curSim; s != nil && s.cur != nil {
+		return &s.cur.held
+	}
+	if amb.cur != nil {
+		return &amb.cur.held
+	}
+	return &mainHeld
+}
+
+func locksHeld() int { return len(*curHeld()) }
+
+func lockHook(key interface{}, try func() bool, unlock func(), delta int) {
+	h := curHeld()
+	if delta > 0 {
+		*h = append(*h, heldLock{key, try, unlock, delta == 2})
+		return
+	}
+	for i := len(*h) - 1; i >= 0; i-- {
+		if (*h)[i].key == key {
+			*h = append((*h)[:i:i], (*h)[i+1:]...)
+			return
+		}
+	}
+}
+
+// releaseHeld: a task that had to be unwound while it was blocked (the only
+// place left where a critical section can be cut short) still holds locks;
+// they are released on its behalf, last one first, otherwise a package-level
+// mutex stays locked for every later run. The TryLock in front makes this safe
+// against bookkeeping gaps: unlocking a mutex that is not locked is fatal in Go.
+func releaseHeld(h *[]heldLock) {
+	for i := len(*h) - 1; i >= 0; i-- {
+		e := (*h)[i]
+		if !e.read && e.try != nil && e.try() {
+			// it was free after all (released on a path the instrumenter did
+			// not see); we hold it now
+			e.unlock()
+			continue
+		}
+		e.unlock()
+	}
+	*h = nil
 }
